@@ -154,3 +154,26 @@ UNIT_CREATION_ENTRY_POINTS = {
     "MoneyMeta.new_unit": {"=", "[]="}, "MoneyMeta.register_currency": {"=", "[]="},
     "ClassWithDefinitionMeta.__new__": {"="},
 }
+
+
+def converter_registry_attr(prog: Program) -> str:
+    """Name of the class attribute that holds a type's registered converters: the one attribute of the class (not a
+    method) that register_converter, remove_converter and registered_converters all use - however they use it."""
+    meta = prog.cls("QuantityMeta")
+    common = None
+    for mname in ("register_converter", "remove_converter", "registered_converters"):
+        fi = prog.method("QuantityMeta", mname)
+        used = set()
+        for f in _with_private_helpers(prog, fi, meta):
+            a = f.node.args
+            params = [p.arg for p in a.posonlyargs + a.args]
+            me = params[0] if params else None
+            for n in ast.walk(f.node):
+                if isinstance(n, ast.Attribute) and isinstance(n.value, ast.Name) and n.value.id == me \
+                        and prog.lookup(meta, n.attr) is None and not (n.attr.startswith("__") and n.attr.endswith("__")):
+                    used.add(n.attr)
+        common = used if common is None else (common & used)
+    if not common or len(common) != 1:
+        raise AnalysisError(f"anchor vanished: the class attribute shared by register_converter / remove_converter / "
+                            f"registered_converters (candidates: {sorted(common or ())})")
+    return next(iter(common))
